@@ -1,6 +1,7 @@
 """Tokenizer and Pratt parser for the Rust subset used by src/broadword.rs and src/intrinsics.rs and by the
-loop-free methods of the core modules (gen/MethodsGen.v), plus item-level helpers (consts, fns, structs, impl
-blocks, signatures) used for the other generated files.
+loop-free methods of the core modules (gen/MethodsGen.v) and the functions with loops (gen/LoopsGen.v: `for`,
+`while`, `while let Some(..)`, `loop`, `break`, `if let Some(..)`, slices, `vec![e; n]`), plus item-level helpers
+(consts, fns, structs, impl blocks, signatures, where clauses) used for the other generated files.
 
 Anything outside the subset raises ParseError: the translator then reports that the tie to the
 source cannot be established (DESIGN.md section 5.1)."""
@@ -61,6 +62,10 @@ def normalized_tokens(src):
 #  ("bin", "..=" | "..", a, b)
 # statements: ("let", name, mutable, e) ("assign", name, op_or_None, e) ("expr", e) ("return", e)
 #  ("lettuple", [names], e)   ("assignp", place_expr, op_or_None, e)   -- place: field / index / deref
+# loops (tools/translate.py, LoopsGen): ("for", pat, iter, body) with pat = name | None (`_`); ("while", cond, body)
+#  ("whilelet", name, e, body) for `while let Some(name) = e`; ("loop", body); statement ("break",)
+#  ("iflet", name, e, then_block, else_block_or_None) for `if let Some(name) = e`; ("vecrep", elem, count) for
+#  `vec![elem; count]`; ("index", a, ("rangeto", k) | ("rangefrom", j) | ("range", j, k)) for slices
 # ---------------------------------------------------------------------------------------------
 
 BINPREC = {
@@ -163,7 +168,14 @@ class Parser:
                 e = ("call", e, args)
             elif self.at("op", "["):
                 self.next()
-                i = self.parse_expr()
+                if self.at("op", ".."):                      # v[..k]
+                    self.next()
+                    i = ("rangeto", self.parse_expr())
+                else:
+                    i = self.parse_expr(BINPREC[".."])       # v[i]  v[j..]  v[j..k]
+                    if self.at("op", ".."):
+                        self.next()
+                        i = ("rangefrom", i) if self.at("op", "]") else ("range", i, self.parse_expr())
                 self.expect("op", "]")
                 e = ("index", e, i)
             elif self.at("op", ".") and self.peek(1)[0] == "id":
@@ -216,6 +228,25 @@ class Parser:
             return self.parse_block()
         if tok == ("id", "if"):
             return self.parse_if()
+        if tok == ("id", "loop") and self.peek(1) == ("op", "{"):
+            self.next()
+            return ("loop", self.parse_block())
+        if tok == ("id", "while"):
+            self.next()
+            if self.at("id", "let"):
+                name = self.parse_some_pattern()
+                e = self.parse_expr()
+                return ("whilelet", name, e, self.parse_block())
+            cond = self.parse_expr()
+            return ("while", cond, self.parse_block())
+        if tok == ("id", "for"):
+            self.next()
+            if self.at("op", "&"):
+                self.next()
+            pat = self.expect("id")[1]
+            self.expect("id", "in")
+            it = self.parse_expr()
+            return ("for", None if pat == "_" else pat, it, self.parse_block())
         if tok == ("id", "unsafe") and self.peek(1) == ("op", "{"):
             self.next()
             return self.parse_block()
@@ -234,6 +265,14 @@ class Parser:
                 self.next()
                 args = self.parse_args()
                 return ("macro", "::".join(path), args)
+            if path == ["vec"] and self.at("op", "!") and self.peek(1) == ("op", "["):
+                self.next()
+                self.next()
+                elem = self.parse_expr()
+                self.expect("op", ";")                       # only the `vec![elem; count]` form
+                count = self.parse_expr()
+                self.expect("op", "]")
+                return ("vecrep", elem, count)
             if len(path) == 1 and self.at("op", "{") and self.looks_like_struct_literal(path[0]):
                 return self.parse_struct_literal(path[0])
             if len(path) == 1:
@@ -285,8 +324,29 @@ class Parser:
         self.expect("op", "}")
         return ("structlit", name, fields)
 
+    def parse_some_pattern(self):
+        """`let Some(name) =` (the only refutable pattern supported); returns name"""
+        self.expect("id", "let")
+        self.expect("id", "Some")
+        self.expect("op", "(")
+        if self.at("op", "&"):
+            self.next()
+        name = self.expect("id")[1]
+        self.expect("op", ")")
+        self.expect("op", "=")
+        return name
+
     def parse_if(self):
         self.expect("id", "if")
+        if self.at("id", "let"):
+            name = self.parse_some_pattern()
+            scrut = self.parse_expr()
+            then = self.parse_block()
+            els = None
+            if self.at("id", "else"):
+                self.next()
+                els = ("block", [], self.parse_if()) if self.at("id", "if") else self.parse_block()
+            return ("iflet", name, scrut, then, els)
         cond = self.parse_expr()
         then = self.parse_block()
         els = None
@@ -306,7 +366,8 @@ class Parser:
         return "::".join(parts)
 
     def at_blocklike(self):
-        return self.at("id", "if") or (self.at("id", "unsafe") and self.peek(1) == ("op", "{"))
+        return self.at("id", "if") or (self.at("id", "unsafe") and self.peek(1) == ("op", "{")) \
+            or self.at("id", "for") or self.at("id", "while") or (self.at("id", "loop") and self.peek(1) == ("op", "{"))
 
     # -- blocks / statements -----------------------------------------------------------------
     def parse_block(self):
@@ -380,6 +441,16 @@ class Parser:
                     self.next()
                 stmts.append(("return", e))
                 continue
+            if self.at("id", "break"):
+                self.next()
+                if not self.at("op", ";") and not self.at("op", "}"):
+                    raise ParseError("`break` with a label or a value")
+                if self.at("op", ";"):
+                    self.next()
+                stmts.append(("break",))
+                continue
+            if self.at("id", "continue"):
+                raise ParseError("`continue` is not supported")
             if self.at_blocklike():
                 # a block-like expression at statement start is a complete statement (as in rustc)
                 e = self.parse_primary()
@@ -505,6 +576,17 @@ def functions(src):
         b1 = find_matching(src, b0)
         out.append((m.group(1), params, ret, src[b0:b1 + 1], m.start()))
     return out
+
+
+def function_where(src, start):
+    """source of the `where` clause (or "") of the function whose FN_RE match starts at `start`"""
+    m = FN_RE.match(src, start)
+    if not m:
+        raise ParseError("no function at offset %d" % start)
+    p1 = find_matching(src, m.end() - 1, "(", ")")
+    b0 = src.find("{", p1)
+    hm = re.search(r"\bwhere\b(.*)$", src[p1 + 1:b0], re.S)
+    return " ".join(hm.group(1).split()) if hm else ""
 
 
 IMPL_RE = re.compile(r"\bimpl\b\s*(?:<[^>{]*>)?\s*([^{;]*?)\s*\{", re.S)
